@@ -138,6 +138,15 @@ class VRPTW:
         self.node_names.remove(depot_name)
         self.nodes.insert(0, depot)
         self.node_names.insert(0, depot_name)
+        # Arcs are keyed by node positions, which have just changed:
+        # keep every arc filed under the positions of its own endpoints
+        def new_position(p):
+            if p == d_index:
+                return 0
+            return p + 1 if p < d_index else p
+        rekeyed = [((new_position(i), new_position(j)), arc) for (i, j), arc in self.arcs.items()]
+        self.arcs.clear()
+        self.arcs.update(rekeyed)
         return
 
     def add_arc(self,
